@@ -28,6 +28,8 @@ use verif_harness::l2::{corpus, rt};
 
 thread_local! {
     static TID: Cell<Option<usize>> = Cell::new(None);
+    /// learning mode (warm-up call of function f on the main thread): every lock seen belongs to cache f
+    static LEARN: Cell<Option<usize>> = Cell::new(None);
 }
 
 #[derive(Clone, Debug, PartialEq)]
@@ -42,7 +44,8 @@ struct CtlState {
     th: Vec<TSt>,
     current: Option<usize>,
     events: Vec<String>,
-    locks: HashMap<usize, usize>, // address -> lock number (first seen)
+    locks: HashMap<usize, usize>, // address -> lock number (first seen; persistent for the process)
+    owner: HashMap<usize, usize>, // address -> function whose cache the lock belongs to (learned in warm-up)
     pending: Vec<Option<(u32, usize, Acq)>>,
 }
 
@@ -62,6 +65,12 @@ struct SchedHooks(Arc<Ctl>);
 
 impl Hooks for SchedHooks {
     fn before_acquire(&self, site: u32, addr: usize, mode: Acq, free: &dyn Fn() -> bool) {
+        if let Some(f) = LEARN.with(|l| l.get()) {
+            if site / 1000 == 1 || site / 1000 == 2 {
+                self.0.st.lock().unwrap().owner.insert(addr, f);
+            }
+            return;
+        }
         let me = match TID.with(|t| t.get()) {
             Some(m) => m,
             None => return,
@@ -75,11 +84,18 @@ impl Hooks for SchedHooks {
         loop {
             st = c.cv.wait_while(st, |s| s.current != Some(me)).unwrap();
             if free() {
+                // progress: whatever the others are waiting for may become free — let them retry
+                for s in st.th.iter_mut() {
+                    if *s == TSt::Blocked {
+                        *s = TSt::Parked;
+                    }
+                }
                 st.th[me] = TSt::Running;
                 st.pending[me] = None;
                 let ln = Ctl::lock_no(&mut st, addr);
                 let m = if mode == Acq::Shared { "s" } else { "x" };
-                st.events.push(format!("A{me}:{site}:{ln}:{m}"));
+                let own = st.owner.get(&addr).map(|f| f.to_string()).unwrap_or_else(|| "-".to_string());
+                st.events.push(format!("A{me}:{site}:{ln}:{m}:{own}"));
                 return;
             }
             st.th[me] = TSt::Blocked;
@@ -111,10 +127,11 @@ fn exec_op(op: &str) -> String {
             md::rt::NEXT_TL.with(|n| {
                 n.set(Some(rt::Next { n: p[3].parse().unwrap(), ok: p[4] == "1", len: p[5].parse().unwrap(), ci: true, io: false }))
             });
+            let (wv, _, _) = corpus::WOULD[fi]();
             let e0 = rt::EXEC_TL.with(|e| e.get());
             let (k, r) = corpus::CALLS[fi](j);
             let e1 = rt::EXEC_TL.with(|e| e.get());
-            format!("ret={} {} exec={}", hex(&k), hex(&r), e1 - e0)
+            format!("ret={} {} exec={} would={}", hex(&k), hex(&r), e1 - e0, hex(&wv))
         }
         "tag" => format!("count={}", cachelito_core::invalidate_by_tag(p[1])),
         "event" => format!("count={}", cachelito_core::invalidate_by_event(p[1])),
@@ -156,7 +173,6 @@ fn run_once(ctl: &Arc<Ctl>, programs: &[Vec<String>], prefix: &[usize], rng: &mu
         st.th = vec![TSt::Parked; n];
         st.current = None;
         st.events.clear();
-        st.locks.clear();
         st.pending = vec![None; n];
     }
     let mut handles = Vec::new();
@@ -182,6 +198,11 @@ fn run_once(ctl: &Arc<Ctl>, programs: &[Vec<String>], prefix: &[usize], rng: &mu
                 st.events.push(format!("E{t}:{}", out.replace(' ', "_")));
             }
             let mut st = ctl.st.lock().unwrap();
+            for s in st.th.iter_mut() {
+                if *s == TSt::Blocked {
+                    *s = TSt::Parked;
+                }
+            }
             st.th[t] = TSt::Finished;
             st.current = None;
             ctl.cv.notify_all();
@@ -237,12 +258,6 @@ fn run_once(ctl: &Arc<Ctl>, programs: &[Vec<String>], prefix: &[usize], rng: &mu
         let t = cands[idx];
         choices.push((cands.clone(), idx));
         sched.push(t);
-        // a thread that makes progress may free what the blocked ones wait for: let them retry
-        for s in st.th.iter_mut() {
-            if *s == TSt::Blocked {
-                *s = TSt::Parked;
-            }
-        }
         // the chosen one may turn out blocked: it then marks itself Blocked and hands control back
         st.th[t] = TSt::Running;
         st.current = Some(t);
@@ -289,38 +304,52 @@ fn det_val(fi: usize, j: usize) -> (u64, bool) {
     (h, true)
 }
 
+fn call_op(sp: &md::Spec, j: usize) -> String {
+    let (n, ok) = det_val(sp.idx, j);
+    let len = match sp.max_mem {
+        Some(m) => 4 + (n as usize * 29) % (m.saturating_sub(24) / 2 + 8),
+        None => 4 + (n % 5) as usize,
+    };
+    format!("call {} {} {} {} {}", sp.idx, j, n, ok as u8, len)
+}
+
+/// thread programs biased towards conflicts on ONE hot cache (`fns[0]`, which has an entry limit):
+/// thread 0 stores distinct keys into it (overflowing its limit, so evictions nest queue -> store),
+/// the other threads mix invalidations that address the hot cache with calls and statistics queries.
 fn gen_program(rng: &mut Rng, fns: &[md::Spec], nthreads: usize, ops_per_thread: usize) -> Vec<Vec<String>> {
+    let hot = &fns[0];
     let names: Vec<String> = fns.iter().map(|s| s.name.clone()).collect();
     let mut progs = Vec::new();
     for t in 0..nthreads {
         let mut p = Vec::new();
-        for _ in 0..ops_per_thread {
+        for i in 0..ops_per_thread {
             let c = rng.below(100);
-            // thread 0 mostly calls; the others mix calls and invalidations
-            let call_share = if t == 0 { 85 } else { 50 };
-            if c < call_share {
-                let sp = rng.pick(fns);
-                let nk = sp.limit.map(|l| l + 2).unwrap_or(3) as u64;
-                let j = rng.below(nk) as usize;
-                let (n, ok) = det_val(sp.idx, j);
-                let len = match sp.max_mem {
-                    Some(m) => 4 + (n as usize * 29) % (m.saturating_sub(24) / 2 + 8),
-                    None => 4 + (n % 5) as usize,
-                };
-                p.push(format!("call {} {} {} {} {}", sp.idx, j, n, ok as u8, len));
-            } else if c < call_share + 12 {
-                p.push(format!("with {} {}", rng.pick(&names), 1 + rng.below(3)));
-            } else if c < call_share + 18 {
-                p.push(format!("allwith {}", 1 + rng.below(3)));
-            } else if c < call_share + 28 {
-                p.push(format!("tag {}", rng.pick(&["t0", "t1", "t2"])));
-            } else if c < call_share + 33 {
+            if t == 0 {
+                if c < 80 {
+                    p.push(call_op(hot, i));
+                } else {
+                    let sp = rng.pick(fns);
+                    p.push(call_op(sp, rng.below(3) as usize));
+                }
+                continue;
+            }
+            if c < 30 {
+                p.push(format!("with {} {}", if rng.chance(3, 4) { hot.name.clone() } else { rng.pick(&names).clone() }, 1 + rng.below(4)));
+            } else if c < 40 {
+                p.push(format!("allwith {}", 1 + rng.below(4)));
+            } else if c < 52 {
+                let tag = if !hot.tags.is_empty() && rng.chance(2, 3) { hot.tags[0].clone() } else { rng.pick(&["t0", "t1", "t2"]).to_string() };
+                p.push(format!("tag {}", tag));
+            } else if c < 57 {
                 p.push(format!("event {}", rng.pick(&["e0", "e1"])));
-            } else if c < call_share + 38 {
-                p.push(format!("cache {}", rng.pick(&names)));
-            } else if c < call_share + 44 {
+            } else if c < 64 {
+                p.push(format!("cache {}", if rng.chance(1, 2) { hot.name.clone() } else { rng.pick(&names).clone() }));
+            } else if c < 84 {
+                let sp = if rng.chance(2, 3) { hot } else { rng.pick(fns) };
+                p.push(call_op(sp, rng.below(sp.limit.unwrap_or(1) as u64 + 2) as usize));
+            } else if c < 92 {
                 p.push(format!("sget {}", rng.pick(&names)));
-            } else if c < call_share + 47 {
+            } else if c < 95 {
                 p.push("slist".to_string());
             } else {
                 p.push(format!("sreset {}", rng.pick(&names)));
@@ -354,7 +383,7 @@ fn main() {
     // candidate functions: global / async ones with a bound, without scripted predicates
     let usable: Vec<md::Spec> = specs.iter().filter(|s| !s.thread && !s.has_pred).cloned().collect();
     let ctl = Arc::new(Ctl {
-        st: Mutex::new(CtlState { th: vec![], current: None, events: vec![], locks: HashMap::new(), pending: vec![] }),
+        st: Mutex::new(CtlState { th: vec![], current: None, events: vec![], locks: HashMap::new(), owner: HashMap::new(), pending: vec![] }),
         cv: Condvar::new(),
     });
     cachelito_core::verif::install_hooks(Some(Arc::new(SchedHooks(ctl.clone()))));
@@ -373,6 +402,9 @@ fn main() {
     for pi in 0..nprog {
         // 2 or 3 functions, prefer ones sharing a tag
         let mut fns: Vec<md::Spec> = Vec::new();
+        // the hot cache: one with an entry limit (alternating sync global / async)
+        let hot_pool: Vec<&md::Spec> = usable.iter().filter(|s| s.limit.map(|l| l <= 2).unwrap_or(false) && s.is_async == (pi % 3 == 1)).collect();
+        fns.push((*rng.pick(&hot_pool)).clone());
         while fns.len() < 2 + (pi % 2) {
             let s = rng.pick(&usable).clone();
             if !fns.iter().any(|f| f.idx == s.idx) {
@@ -382,20 +414,28 @@ fn main() {
         // warm-up: first calls (registrations run inside `Once`) happen before any scheduling
         for sp in &fns {
             md::rt::NEXT_TL.with(|n| n.set(Some(rt::Next { n: 1, ok: true, len: 4, ci: true, io: false })));
+            LEARN.with(|l| l.set(Some(sp.idx)));
             let _ = corpus::CALLS[sp.idx](0);
+            let _ = corpus::CALLS[sp.idx](1);
+            LEARN.with(|l| l.set(None));
         }
         md::rt::NEXT_TL.with(|n| n.set(None));
         let nthreads = 2 + (pi % 3 == 2) as usize;
-        let progs = gen_program(&mut rng, &fns, nthreads, if nthreads == 2 { 2 + pi % 2 } else { 2 });
+        let progs = gen_program(&mut rng, &fns, nthreads, if nthreads == 2 { 3 } else { 2 });
         let ptxt: Vec<String> = progs.iter().map(|p| p.join(";")).collect();
         let ftxt: Vec<String> = fns.iter().map(|f| f.idx.to_string()).collect();
         println!("P|{}|{}", ftxt.join(","), ptxt.join("||"));
-        // stateless DFS
+        // first half of the budget: random schedules (finds early-divergence bugs fast); second half: stateless
+        // DFS, which reports `exhaustive=1` when it enumerates the whole schedule space within the budget
         let mut prefix: Vec<usize> = Vec::new();
         let mut runs = 0usize;
         let mut exhausted = false;
-        let mut rrng: Option<Rng> = None;
+        let mut rrng: Option<Rng> = Some(Rng::new(seed ^ 0xABCD ^ pi as u64));
         while runs < max_runs {
+            if runs >= max_runs / 2 && rrng.is_some() {
+                rrng = None;
+                prefix.clear();
+            }
             reset_all(&fns);
             let r = run_once(&ctl, &progs, &prefix, &mut rrng);
             runs += 1;
@@ -456,11 +496,6 @@ fn main() {
             }
             if exhausted {
                 break;
-            }
-            // spend the last third of the budget on random schedules if the space is too large
-            if runs * 3 > max_runs * 2 && !exhausted {
-                rrng = Some(Rng::new(seed ^ 0xABCD ^ pi as u64));
-                prefix.clear();
             }
         }
         println!("#STAT program={} runs={} exhaustive={}", pi, runs, exhausted as u8);
